@@ -76,3 +76,21 @@ def gen_cases(seed, ns):
 
 def run_case(case):
     return check_split(case["rows"], case["sym"], case["n"], case["s"])
+
+
+def replay_search(form="number"):
+    """search small inputs (every n in 1..16, several sizes/offsets) for a native failure of the orbit clauses"""
+    rng = np.random.default_rng(10)
+    for n in range(1, 17):
+        for t in range(3):
+            npart = [1, 3, 8][t]
+            rows = random_motl_rows(rng, npart, n_tomos=2)
+            ids = rng.permutation(np.arange(1, 3 * npart + 1))[:npart]
+            for r, i in zip(rows, ids):
+                r["subtomo_id"] = float(i)
+            s = [[float(x) for x in rng.uniform(-15, 15, 3)], [0.0, 0.0, 4.5], [7.0, 0.0, 0.0]][t]
+            sym = {"number": n, "C": f"C{n}", "c": f"c{n}"}.get(form, n)
+            r = check_split(rows, sym, n, s)
+            if r is not None:
+                return {"reproduced": True, "input": {"symmetry": sym, "xyz_shift": s, "rows": rows}, "observed": r}
+    return {"reproduced": False, "input": "n in 1..16 x 3 sizes/offsets", "observed": None}
